@@ -14,8 +14,11 @@ def run(ctx):
     violations, cov = [], {"samples": []}
 
     def relevant(case, dv):
+        if case["group"] == "cut":
+            # no time limit and the clock jumps by four months in mid-search (driver mode k): C16_clock_free
+            return "k" in case["specs"][0]
         return case["group"] in ("value", "seq") and not (dv.get("spec") or "").endswith("x")
-    r = SP.corr(ctx, prop, ("value", "seq"), relevant,
+    r = SP.corr(ctx, prop, ("value", "seq", "cut"), relevant,
                 "fixed-depth search differs from the model function (best move / score / node count / cache writes)",
                 violations, cov)
     # runtime evidence (not proof): the same cases again in one process, in a second process and
@@ -80,6 +83,7 @@ def run(ctx):
                 violations.append({"replay": rp})
     cov["rule"] = ("fixed depth 1..3(4) from a fresh cache and sequences of searches sharing the cache: EXACT equality of "
                    "best move, score, node count, seldepth, info lines and the complete cache-write trace with the Coq model; "
+                   "the same with NO time limit while the clock is made to jump by 10^10 ms in mid-search (guarded clock-skew hook): nothing may change; "
                    "plus repeated runs in one process, in separate processes and under 16-way CPU load (runtime evidence)")
     return SP.finish(prop, gate, violations, cov)
 
